@@ -268,3 +268,18 @@ def raised_in_repo(exc):
         if (os.sep + "qstrader" + os.sep) in fn:
             return True
     return False
+
+
+def finish_plan(plan, seed):
+    """Host-process state that is part of every plan (drawn from the run seed, not from the world's generator
+    stream): whether the host application has switched standard-library logging off."""
+    plan["host_logging"] = "on" if (int(seed) >> 7) % 3 == 0 else "off"
+    if isinstance(plan.get("cfg"), dict):
+        plan["cfg"]["host_logging"] = plan["host_logging"]
+    return plan
+
+
+def apply_host_state(d):
+    """Every run executes in its own child process, so process-global state is set from the plan."""
+    import logging
+    logging.disable(logging.NOTSET if d.get("host_logging") == "on" else logging.CRITICAL)
